@@ -2,6 +2,7 @@
   Lemmas for C15 (engine `text`): sinks, sources, separators and sequences.
 -/
 import CelloProofs.Lemmas.Text
+import CelloProofs.Lemmas.TextInt
 import CelloProofs.Lemmas.TextFloat
 
 namespace Cello.Text
@@ -176,7 +177,7 @@ theorem matchLit_self (t : List Nat) : ∀ f : List Nat, ¬(lastIs isSpace t = t
 
 def Item.isFloat : Item → Bool
   | .shw (.flt _) => true
-  | .lf _ => true
+  | .fspec _ _ _ => true
   | _ => false
 
 theorem withN_ok {α : Type} (rd : List Nat → Res (α × List Nat)) (d : α) (t f : List Nat) (a : α) (pos : Nat)
@@ -189,13 +190,17 @@ theorem run_text {β : Type} (i : Input) (pos : Nat) (d : β) (rd : List Nat →
   rw [run_ok i pos d rd (t ++ f) f b (pos + t.length) hv hr]
   simp
 
+theorem convInt_li (n : Int) (h : inInt64 n = true) : convInt .l .i n = n :=
+  convInt_inWidth .l .i n (by simpa [intInWidth, IMod.width] using h)
+
 /-- **one segment**: if the input at `pos` shows the text the item wrote followed by `f`, and `f` does not continue the item
-    (`Item.safe`), `scan_from_with` stores the item's value, moves the stream by exactly the item's text and returns
+    (`Item.safe`), `scan_from_with` stores the item's value (`readBack`), moves the stream by exactly the item's text and returns
     `pos` + its length -/
-theorem scanItem_text (c : Cfg) (T : Tables c) (hc : c.look.continues = true) (hp : c.pctUsesN = true) (k : Kind) (it : Item) (f : List Nat)
+theorem scanItem_text (c : Cfg) (T : Tables c) (hc : c.look.continues = true) (hp : c.pctUsesN = true) (A : ArmsOK c)
+    (k : Kind) (it : Item) (f : List Nat)
     (i : Input) (pos : Nat) (hk : i.kind = k) (hv : it.valid = true) (hs : it.safe k f = true)
     (hsee : i.view pos = some (it.text c ++ f)) :
-    scanItem c i pos it.shape = (it.readBack, .ok (i.adv (it.text c).length, pos + (it.text c).length)) := by
+    scanItem c i pos it.shape = (it.readBack c, .ok (i.adv (it.text c).length, pos + (it.text c).length)) := by
   cases it with
   | shw v =>
     cases v with
@@ -207,29 +212,32 @@ theorem scanItem_text (c : Cfg) (T : Tables c) (hc : c.look.continues = true) (h
       rw [run_text i pos [63] (lookString c.look) _ f s hsee hl]
     | int n =>
       simp only [Item.text] at hsee ⊢
-      have h1 := scanLong_printInt true n hv f hs
+      have h0 : printInt n = printIntSpec .l .i n := by
+        have : sext 64 n = n := by
+          have := convInt_li n hv; simpa [convInt, IConv.signed, IMod.width] using this
+        simp [printIntSpec, IMod.width, this]
+      rw [h0] at hsee ⊢
+      have h1 := scanIntSpec_print c A .l .i n hv f hs
+      rw [convInt_li n hv] at h1
       simp only [Item.shape, scanItem, Item.readBack]
       rw [run_text i pos 77 _ _ f n hsee (withN_ok _ _ _ _ _ _ h1)]
     | flt b =>
       simp only [Item.text] at hsee ⊢
-      have h1 := scanDouble_printF b f hs
+      have h1 : scanFloatSpec c true .f (printF b ++ f) = .ok (reparseSpec (fspecNarrow c true .f) .f b, f) :=
+        scanFloating_print _ .f b f hs
       simp only [Item.shape, scanItem, Item.readBack]
-      rw [run_text i pos _ _ _ f (reparse b) hsee (withN_ok _ _ _ _ _ _ h1)]
-  | li n =>
+      rw [run_text i pos _ _ _ f _ hsee (withN_ok _ _ _ _ _ _ h1)]
+  | ispec m cv n =>
     simp only [Item.text] at hsee ⊢
-    have h1 := scanLong_printInt true n hv f hs
+    have h1 := scanIntSpec_print c A m cv n hv f hs
     simp only [Item.shape, scanItem, Item.readBack]
-    rw [run_text i pos 77 _ _ f n hsee (withN_ok _ _ _ _ _ _ h1)]
-  | ld n =>
+    rw [run_text i pos 77 _ _ f _ hsee (withN_ok _ _ _ _ _ _ h1)]
+  | fspec l cv b =>
     simp only [Item.text] at hsee ⊢
-    have h1 := scanLong_printInt false n hv f hs
+    have h1 : scanFloatSpec c l cv (printFloatSpec cv b ++ f) = .ok (reparseSpec (fspecNarrow c l cv) cv b, f) :=
+      scanFloating_print _ cv b f hs
     simp only [Item.shape, scanItem, Item.readBack]
-    rw [run_text i pos 77 _ _ f n hsee (withN_ok _ _ _ _ _ _ h1)]
-  | lf b =>
-    simp only [Item.text] at hsee ⊢
-    have h1 := scanDouble_printF b f hs
-    simp only [Item.shape, scanItem, Item.readBack]
-    rw [run_text i pos _ _ _ f (reparse b) hsee (withN_ok _ _ _ _ _ _ h1)]
+    rw [run_text i pos _ _ _ f _ hsee (withN_ok _ _ _ _ _ _ h1)]
   | lit t =>
     simp only [Item.text] at hsee ⊢
     simp only [Item.shape, scanItem, Item.readBack, hsee]
@@ -252,11 +260,12 @@ theorem scanItem_text (c : Cfg) (T : Tables c) (hc : c.look.continues = true) (h
 
 /-! ## sequences -/
 
-theorem scanItems_text (c : Cfg) (T : Tables c) (hc : c.look.continues = true) (hp : c.pctUsesN = true) (k : Kind) (its : List Item) (z : List Nat) :
+theorem scanItems_text (c : Cfg) (T : Tables c) (hc : c.look.continues = true) (hp : c.pctUsesN = true) (A : ArmsOK c)
+    (k : Kind) (its : List Item) (z : List Nat) :
     ∀ (i : Input) (pos : Nat), i.kind = k → contractOK c k its z = true →
       i.view pos = some (its.flatMap (Item.text c) ++ z) →
       scanItems c i pos (its.map Item.shape)
-        = (its.filterMap Item.readBack, .ok (i.adv (its.flatMap (Item.text c)).length, pos + (its.flatMap (Item.text c)).length)) := by
+        = (its.filterMap (Item.readBack c), .ok (i.adv (its.flatMap (Item.text c)).length, pos + (its.flatMap (Item.text c)).length)) := by
   induction its with
   | nil => intro i pos _ _ _; simp [scanItems, adv_zero]
   | cons it its ih =>
@@ -264,24 +273,26 @@ theorem scanItems_text (c : Cfg) (T : Tables c) (hc : c.look.continues = true) (
     simp only [contractOK, Bool.and_eq_true] at hcon
     obtain ⟨⟨hv, hs⟩, hrest⟩ := hcon
     simp only [List.flatMap_cons, List.append_assoc] at hsee
-    have h1 := scanItem_text c T hc hp k it _ i pos hk hv hs hsee
+    have h1 := scanItem_text c T hc hp A k it _ i pos hk hv hs hsee
     have hsee' := view_adv i pos _ _ hsee
     have h2 := ih (i.adv (it.text c).length) (pos + (it.text c).length) (by rw [adv_kind]; exact hk) hrest hsee'
     simp only [List.map_cons, scanItems, h1, h2, List.filterMap_cons, List.flatMap_cons, List.length_append, adv_adv, Nat.add_assoc]
-    cases it.readBack <;> simp
+    cases it.readBack c <;> simp
 
-/-- for Strings and Ints the expected value is the value written -/
-theorem readBack_eq_val (it : Item) (h : it.isFloat = false) : it.readBack = it.val? := by
+/-- for Strings, and for Ints that fit the type their specification names, the expected value is the value written -/
+theorem readBack_eq_val (c : Cfg) (it : Item) (h : it.isFloat = false) (hw : it.inWidth c = true) : it.readBack c = it.val? := by
   cases it with
   | shw v => cases v <;> simp_all [Item.readBack, Item.val?, Item.isFloat]
+  | ispec m cv n => simp [Item.readBack, Item.val?, convInt_inWidth m cv n hw]
   | _ => simp_all [Item.readBack, Item.val?, Item.isFloat]
 
-theorem filterMap_readBack_eq_val (its : List Item) (h : ∀ it ∈ its, it.isFloat = false) :
-    its.filterMap Item.readBack = its.filterMap Item.val? := by
+theorem filterMap_readBack_eq_val (c : Cfg) (its : List Item) (h : ∀ it ∈ its, it.isFloat = false)
+    (hw : ∀ it ∈ its, it.inWidth c = true) :
+    its.filterMap (Item.readBack c) = its.filterMap Item.val? := by
   induction its with
   | nil => rfl
   | cons it its ih =>
-    simp only [List.filterMap_cons, readBack_eq_val it (h it List.mem_cons_self)]
-    rw [ih (fun x hx => h x (List.mem_cons_of_mem _ hx))]
+    simp only [List.filterMap_cons, readBack_eq_val c it (h it List.mem_cons_self) (hw it List.mem_cons_self)]
+    rw [ih (fun x hx => h x (List.mem_cons_of_mem _ hx)) (fun x hx => hw x (List.mem_cons_of_mem _ hx))]
 
 end Cello.Text
